@@ -207,6 +207,9 @@ func (ta *taintAnalysis) run(fn *ssa.Function, seeds []ssa.Value) []sink {
 				if x.Op == token.MUL && refLike(x.Type(), 0) {
 					add(x, seed) // a reference loaded from shared storage is itself shared
 				}
+				if x.Op == token.ARROW && x.X == v {
+					report(sinkStore, x, "receive from a shared channel (a queue every caller sees)", seed)
+				}
 			case *ssa.Range:
 				add(x, seed)
 			case *ssa.Next:
@@ -235,7 +238,19 @@ func (ta *taintAnalysis) run(fn *ssa.Function, seeds []ssa.Value) []sink {
 					report(sinkEscape, x, "reference stored into a map", seed)
 				}
 			case *ssa.Send:
-				report(sinkEscape, x, "reference sent on a channel", seed)
+				if x.Chan == v {
+					report(sinkStore, x, "send on a shared channel (a queue every caller sees)", seed)
+				} else {
+					report(sinkEscape, x, "reference sent on a channel", seed)
+				}
+			case *ssa.Select:
+				for _, stt := range x.States {
+					if stt.Chan == v {
+						report(sinkStore, x, "communication on a shared channel (a queue every caller sees)", seed)
+					} else if stt.Send == v {
+						report(sinkEscape, x, "reference sent on a channel", seed)
+					}
+				}
 			case *ssa.Go:
 				report(sinkEscape, x, "reference passed to a goroutine", seed)
 			case *ssa.Defer:
